@@ -15,7 +15,7 @@
    - clause checkers [cl_*] and the oracle [c02_ok] evaluated on what the
      harness observed of the real proxy. *)
 
-From Coq Require Import List Bool Arith.
+From Coq Require Import List Bool Arith NArith.
 Import ListNotations.
 
 (* ------------------------------------------------------------------ *)
@@ -574,27 +574,34 @@ Definition agrees (v : variant) (conns : list (list req)) (Ts : list (list event
 (* ------------------------------------------------------------------ *)
 
 (* One exchange of a batch of connections served concurrently, as the
-   modifiers observe it: (connection, context ID, session ID). *)
-Definition cobs := (nat * nat * nat)%type.
-Definition co_conn (o : cobs) : nat := fst (fst o).
-Definition co_ctx (o : cobs) : nat := snd (fst o).
-Definition co_sess (o : cobs) : nat := snd o.
+   modifiers observe it: (connection, context ID, session ID).  Binary
+   numbers: a run has tens of thousands of exchanges. *)
+Definition cobs := (N * N * N)%type.
+Definition co_conn (o : cobs) : N := fst (fst o).
+Definition co_ctx (o : cobs) : N := snd (fst o).
+Definition co_sess (o : cobs) : N := snd o.
 
 (* A schedule says which connection performs the next exchange.  withSession
    (context.go 301-312) draws a fresh identifier for every exchange, newSession
    one per connection; drawing is atomic (newID reads crypto/rand into a slice
    of its own), so in the model the j-th draw of the run gets identifier
    [next + j] whatever the schedule, and connection k keeps session k. *)
-Fixpoint conc_run (next : nat) (sched : list nat) : list cobs :=
+Fixpoint conc_run (next : N) (sched : list N) : list cobs :=
   match sched with
   | [] => []
-  | k :: rest => (k, next, k) :: conc_run (S next) rest
+  | k :: rest => (k, next, k) :: conc_run (N.succ next) rest
+  end.
+
+Fixpoint nodupN (l : list N) : bool :=
+  match l with
+  | [] => true
+  | x :: l' => negb (existsb (N.eqb x) l') && nodupN l'
   end.
 
 (* oracle for a concurrent batch: context IDs pairwise distinct over ALL
    exchanges of the run; two exchanges have the same session exactly when
    they belong to the same connection *)
 Definition conc_ok (obs : list cobs) : bool :=
-  nodupb (map co_ctx obs)
+  nodupN (map co_ctx obs)
   && forallb (fun a => forallb (fun b =>
-       Bool.eqb (Nat.eqb (co_conn a) (co_conn b)) (Nat.eqb (co_sess a) (co_sess b))) obs) obs.
+       Bool.eqb (N.eqb (co_conn a) (co_conn b)) (N.eqb (co_sess a) (co_sess b))) obs) obs.
